@@ -1,12 +1,13 @@
 --------------------------- MODULE MC_AuthSession ---------------------------
 EXTENDS AuthSession, Json
-AllOps  == {"CreateUser", "SetPassword", "Disable", "Enable", "DeleteUser", "CreateSession", "DeleteSession", "Expire",
+AllOps  == {"CreateUser", "SetPassword", "Disable", "Enable", "DeleteUser", "CreateSession", "DeleteSession", "Expire", "Age",
             "AuthPassword", "AuthCookie", "AuthOneTime", "PGetS"}
 SeqOps  == AllOps \ {"PGetS"}
-ConcOps == {"CreateUser", "CreateSession", "PGetS"}   \* set-up, then only concurrent presentations
+ConcOps == {"CreateUser", "CreateSession", "PGetS"}
+ConcAgeOps == ConcOps \cup {"Age"}   \* set-up, then only concurrent presentations
 PwOps   == {"CreateUser", "SetPassword", "DeleteUser", "Disable", "Enable", "AuthPassword"}           \* credential histories
-SessLifeOps == {"CreateUser", "SetPassword", "DeleteUser", "CreateSession", "DeleteSession", "AuthCookie", "AuthOneTime"}   \* session-life histories
-ConcMixOps == ConcOps \cup {"AuthCookie", "AuthOneTime", "DeleteSession", "SetPassword"}   \* episodes mixed with sequential presentations
+SessLifeOps == {"CreateUser", "SetPassword", "DeleteUser", "CreateSession", "DeleteSession", "Age", "AuthCookie", "AuthOneTime"}   \* session-life histories
+ConcMixOps == ConcOps \cup {"AuthCookie", "AuthOneTime", "DeleteSession", "SetPassword", "Age"}   \* episodes mixed with sequential presentations
 (* Simulation: TLC picks uniformly among SUCCESSOR STATES, so under Next the actions with many argument choices
    (AuthPassword: users x passwords, CreateSession: slots x users x BOOLEAN) swamp Disable / DeleteUser / Expire.
    SimNext draws the arguments with RandomElement - one successor per action KIND (the quantifier over a singleton
@@ -20,6 +21,7 @@ Free == {s \in Sessions : ~gSess[s].created}
 Made == {s \in Sessions : gSess[s].created}
 Live == {s \in Sessions : sess[s].exists}
 LiveOne == {s \in Live : sess[s].oneTime}
+Young == {s \in Live : ~sess[s].aged}
 SimNext ==
   /\ Len(hist) < MaxSteps
   /\ \/ (On("CreateUser") /\ Users \ Ex # {} /\ \E u \in Pick(Users \ Ex), p \in Pick(SetPws) : CreateUser(u, p))
@@ -31,6 +33,7 @@ SimNext ==
      \/ (On("CreateSession") /\ On("PGetS") /\ ExEn # {} /\ Free # {} /\ \E s \in Pick(Free), u \in Pick(ExEn) : CreateSession(s, u, TRUE))
      \/ (On("DeleteSession") /\ Made # {} /\ \E s \in Pick(Made) : DeleteSession(s))
      \/ (On("Expire") /\ Live # {} /\ \E s \in Pick(Live) : Expire(s))
+     \/ (On("Age") /\ Young # {} /\ \E s \in Pick(Young) : Age(s))
      \/ (On("AuthPassword") /\ TryPws # {} /\ \E u \in Pick(Users), p \in Pick(TryPws) : AuthPassword(u, p))
      \/ (On("AuthPassword") /\ Ex # {} /\ \E u \in Pick(Ex) : user[u].hpw \in TryPws /\ AuthPassword(u, user[u].hpw))
      \/ (\E op \in Pick(SessOps), s \in Pick(Sessions) : On(op) /\ AuthSess(op, s))
@@ -39,6 +42,7 @@ SimNext ==
      \/ (On("PGetS") /\ Live # {} /\ \E q \in Presenters, s \in Pick(Live), kind \in Pick(SessOps) : PGetS(q, s, kind))
      \/ (On("PGetS") /\ LiveOne # {} /\ \E q \in Presenters, s \in Pick(LiveOne), kind \in Pick(SessOps) : PGetS(q, s, kind))
      \/ (On("PGetS") /\ LiveOne # {} /\ ~Quiet /\ \E q \in Presenters, s \in Pick(LiveOne), kind \in Pick(SessOps) : PGetS(q, s, kind))
+     \/ (\E q \in Presenters : PSet(q))
      \/ (\E q \in Presenters : PGetU(q))
      \/ (\E q \in Presenters : PDel(q))
 SimSpec == Init /\ [][SimNext]_vars
